@@ -33,3 +33,37 @@ Example C12_nonvacuous :
   bpf_udp false (Some 6699) f = true /\ bpf_udp false (Some 7788) f = false /\
   pcap_extract c (mk_pframe 47 f) = Some [85;170;1;2;3] /\ raw_feed 0 0 1546 [85;170;1;2;3] = Some [85;170;1;2;3].
 Proof. vm_compute. repeat split; reflexivity. Qed.
+
+(* ---- T3: end of the capture file (the reader's loop as regenerated from input_pcap.hpp / input_pcap_jumbo.hpp by kt.py:
+   per round, whether the loop goes on and which event codes it hands to the exception callback) ---- *)
+From Coq Require Import String.
+From RS Require Import Gen.Kernels_gen Model.Worker Proofs.WorkerExit.
+(* without pcap_repeat: ERRCODE_PCAPEXIT is reported and the loop is left ... *)
+Theorem C12_T3_eof_exit cs : nth 0 cs false = false -> nth 10 cs false = true -> nth 11 cs false = false ->
+  InputPcap_recvPacket_round false cs = RBrk /\ InputPcap_recvPacket_reports false cs = ["ERRCODE_PCAPEXIT"%string].
+Proof. exact (pcap_eof_exit cs). Qed.
+(* ... for good: a reader that has left its loop runs no further round (reads nothing, reports nothing more) *)
+Theorem C12_T3_stops_reading s acts : w_returned s = true -> w_rounds (wrun InputPcap_recvPacket_round s acts) = w_rounds s.
+Proof. exact (no_round_after_return _ s acts). Qed.
+(* with pcap_repeat: ERRCODE_PCAPREPEAT is reported and the loop goes on (the file is opened again on that path) *)
+Theorem C12_T3_eof_repeat cs : nth 0 cs false = false -> nth 10 cs false = true -> nth 11 cs false = true ->
+  InputPcap_recvPacket_round false cs = RCont /\ InputPcap_recvPacket_reports false cs = ["ERRCODE_PCAPREPEAT"%string].
+Proof. exact (pcap_eof_repeat cs). Qed.
+(* a record that could be read raises no event and does not end the loop *)
+Theorem C12_T3_record_quiet cs : nth 0 cs false = false -> nth 10 cs false = false ->
+  InputPcap_recvPacket_round false cs = RCont /\ InputPcap_recvPacket_reports false cs = [].
+Proof. exact (pcap_record_quiet cs). Qed.
+(* which conditions those positions are in the current source *)
+Theorem C12_T3_conditions :
+  nth 0 InputPcap_recvPacket_conds ""%string = "pcap_ == NULL"%string /\
+  nth 10 InputPcap_recvPacket_conds ""%string = "ret < 0"%string /\
+  nth 11 InputPcap_recvPacket_conds ""%string = "input_param_.pcap_repeat"%string /\
+  nth 2 InputPcap_recvPacket_conds ""%string = "ret < 0"%string /\
+  nth 3 InputPcap_recvPacket_conds ""%string = "input_param_.pcap_repeat"%string.
+Proof. exact pcap_round_conds. Qed.
+(* the jumbo reader ends its file the same way *)
+Theorem C12_T3_jumbo_eof cs : nth 0 cs false = false -> nth 10 cs false = true ->
+  (nth 11 cs false = false -> InputPcapJumbo_recvPacket_round false cs = RBrk /\ InputPcapJumbo_recvPacket_reports false cs = ["ERRCODE_PCAPEXIT"%string]) /\
+  (nth 11 cs false = true -> InputPcapJumbo_recvPacket_round false cs = RCont /\ InputPcapJumbo_recvPacket_reports false cs = ["ERRCODE_PCAPREPEAT"%string]).
+Proof. exact (pcap_jumbo_eof cs). Qed.
+Print Assumptions C12_T3_jumbo_eof.
